@@ -1749,8 +1749,11 @@ class rx:
             'kwargs': {},
             'reverse': False
         }
-        self._method = None
-        return self._clone(operation)
+        # Record the attribute access on a copy: `self` keeps its pending
+        # accessor, so that it still evaluates to the attribute afterwards.
+        new = self._clone(copy=True)
+        new._method = None
+        return new._clone(operation)
 
     def __getattribute__(self, name):
         self_dict = super().__getattribute__('__dict__')
